@@ -3,6 +3,8 @@
 package attestations
 
 import (
+	"math"
+
 	"github.com/ethereum/go-ethereum/accounts/abi"
 
 	errorsmod "cosmossdk.io/errors"
@@ -151,6 +153,11 @@ func ABIDecodeStateAttestation(data []byte) (*StateAttestation, error) {
 	timestampSeconds, ok := unpacked[1].(uint64)
 	if !ok {
 		return nil, errorsmod.Wrap(ErrInvalidAttestationData, "invalid timestamp type")
+	}
+
+	// the timestamp is stored in nanoseconds: seconds which do not fit would wrap around and alias another timestamp
+	if timestampSeconds > math.MaxUint64/nanosPerSecond {
+		return nil, errorsmod.Wrap(ErrInvalidAttestationData, "timestamp overflows uint64 nanoseconds")
 	}
 
 	return &StateAttestation{
